@@ -4,7 +4,12 @@ import (
 	"context"
 
 	"git.defalsify.org/vise.git/db"
+	fsdb "git.defalsify.org/vise.git/db/fs"
 	memdb "git.defalsify.org/vise.git/db/mem"
+	pgdb "git.defalsify.org/vise.git/db/postgres"
+
+	"visim/pgfake"
+	"visim/simfs"
 )
 
 // UseMem installs the memory backend: the memDb object itself is the durable medium of a
@@ -21,5 +26,69 @@ func (w *World) UseMem() {
 		}
 		stores[s.Idx] = st
 		return st, nil
+	}
+	w.Peek = w.NewStore
+}
+
+// UseFs installs the real db/fs backend on a simulated disk (one directory shared by all
+// sessions; every restart opens a fresh handle).
+func (w *World) UseFs(binary bool) *simfs.FS {
+	if w.Disk == nil {
+		w.Disk = simfs.New()
+	}
+	w.NewStore = func(s *Sess) (db.Db, error) {
+		st := fsdb.NewFsDb()
+		if binary {
+			st = st.WithBinary()
+		}
+		if err := st.Connect(context.Background(), w.Disk.Root()+"/state"); err != nil {
+			return nil, err
+		}
+		return st, nil
+	}
+	w.Peek = w.NewStore
+	return w.Disk
+}
+
+// UsePg installs the real db/postgres backend on the fake server (every restart opens a
+// fresh connection; the previous one is dropped without Close, as a dying process would).
+func (w *World) UsePg() *pgfake.Server {
+	if w.Pg == nil {
+		w.Pg = pgfake.NewServer()
+	}
+	conns := map[int]*pgfake.Conn{}
+	w.NewStore = func(s *Sess) (db.Db, error) {
+		if c := conns[s.Idx]; c != nil {
+			c.Drop()
+		}
+		c := w.Pg.Connect()
+		conns[s.Idx] = c
+		st := pgdb.NewPgDb().WithConnection(c)
+		return st, nil
+	}
+	w.Peek = func(s *Sess) (db.Db, error) {
+		return pgdb.NewPgDb().WithConnection(w.Pg.Connect()), nil
+	}
+	return w.Pg
+}
+
+// UseBackend installs the backend named by cfg.Backend.
+func (w *World) UseBackend() {
+	switch w.Cfg.Backend {
+	case BackFs:
+		w.UseFs(false)
+	case BackFsBin:
+		w.UseFs(true)
+	case BackPg:
+		w.UsePg()
+	default:
+		w.UseMem()
+	}
+}
+
+// Close releases the simulated disk.
+func (w *World) Close() {
+	if w.Disk != nil {
+		w.Disk.Unmount()
 	}
 }
